@@ -98,6 +98,9 @@ void prop(DP &dp, const ref::Bytes &sched, Ctx &ctx) {
 			size_t cnt = k == 0 ? st.points_board_count : st.signals_board_count;
 			for (size_t i = 0; i < cnt; i++) {
 				const t_bidib_board_accessory_state &a = (k == 0 ? st.points_board : st.signals_board)[i];
+				// the index getters name the position of the entity within these arrays
+				size_t ix = k == 0 ? bidib_get_point_state_index(a.id) : bidib_get_signal_state_index(a.id);
+				cmp(k == 0 ? "point (index getter)" : "signal (index getter)", a.id, std::to_string(i), std::to_string(ix));
 				gq::Render s1, s2;
 				gq::visit(s1, a.data);
 				t_bidib_unified_accessory_state_query q = k == 0 ? bidib_get_point_state(a.id) : bidib_get_signal_state(a.id);
@@ -128,6 +131,7 @@ void prop(DP &dp, const ref::Bytes &sched, Ctx &ctx) {
 			cmp("peripheral", st.peripherals[i].id, s1.o.str(), t2);
 		}
 		for (size_t i = 0; i < st.segments_count; i++) {
+			cmp("segment (index getter)", st.segments[i].id, std::to_string(i), std::to_string(bidib_get_segment_state_index(st.segments[i].id)));
 			gq::Render s1, s2;
 			gq::visit(s1, st.segments[i].data, false);
 			t_bidib_segment_state_query q = bidib_get_segment_state(st.segments[i].id);
